@@ -12,6 +12,7 @@ import (
 	"dsim/indep"
 	"dsim/simdisk"
 
+	"github.com/diskfs/go-diskfs/backend"
 	"github.com/diskfs/go-diskfs/filesystem"
 	"github.com/diskfs/go-diskfs/filesystem/fat12"
 	"github.com/diskfs/go-diskfs/filesystem/fat16"
@@ -294,6 +295,17 @@ func fatRead(d *simdisk.Disk, ft int, size, start, lss int64) (fatFS, error) {
 		return fat16.Read(d, size, start, lss)
 	default:
 		return fat32.Read(d, size, start, lss)
+	}
+}
+
+func fatReadB(b backend.Storage, ft int, size, start, lss int64) (fatFS, error) {
+	switch ft {
+	case 12:
+		return fat12.Read(b, size, start, lss)
+	case 16:
+		return fat16.Read(b, size, start, lss)
+	default:
+		return fat32.Read(b, size, start, lss)
 	}
 }
 
